@@ -179,6 +179,7 @@ def r02_1(ctx):
         n_sites += 1
         # detector calls on the same buffer
         ok = False
+        any_same = False
         why = "the encoding detector is never consulted for the slice"
         for n2, b2, t2 in sup.calls():
             f2 = fn_of(t2) or {}
@@ -192,8 +193,11 @@ def r02_1(ctx):
                 why = "the value the fast path is selected by is not always the detector's verdict (another definition assigns the encoding without consulting it)"
                 continue
             if not same:
-                why = "the detector is applied to a different buffer"
+                if not any_same:
+                    why = "the detector is applied to a different buffer"
                 continue
+            any_same = True
+            why = "the fast path is not confined to the detector's UTF-8 edge"
             # switches on the detector's result
             res = t2["dest"]["l"]
             for n3 in sup.nodes():
@@ -288,7 +292,7 @@ def _code_rows(lib, d, canon):
     return rows, default, sorted(arities, reverse=True)
 
 
-@rule("R07.2", 17, "encoding detection table == YAML 1.2.2 section 5.2 (as first-match decision tables over all byte-class prefixes); constructor and endianness tables consistent", ["C07"])
+@rule("R07.2", 17, "encoding detection table == YAML 1.2.2 section 5.2 (as first-match decision tables over all byte-class prefixes); constructor and endianness tables consistent", ["C07", "C09", "C02"])
 def r07_2(ctx):
     lib = ctx.lib
     d = detect_fn(lib)
@@ -311,13 +315,20 @@ def r07_2(ctx):
             if s["k"] == "assign" and s["rv"]["k"] == "aggregate" and s["rv"].get("adt") == "std::ops::Range":
                 vals = [o.get("v") for o in s["rv"]["ops"]]
                 ranges.append(tuple(vals))
+    # `prefix.first_chunk::<N>()` is the window 0..N
+    for _, t_ in d.calls():
+        f_ = fn_of(t_) or {}
+        if f_.get("name") in ("first_chunk", "split_first_chunk") and f_.get("def", "").startswith("core::slice") and len(f_.get("args", [])) == 2 and str(f_["args"][1]).isdigit():
+            ranges.append((0, int(f_["args"][1])))
     okr = sorted(ranges, reverse=True) == [(0, a) for a in arities]
     ctx.ob("windows-start-at-zero", okr, site(d), f"prefix windows {ranges} for pattern arities {arities}")
     # exhaustive comparison over byte classes
     classes = [0x00, 0xFE, 0xFF, 0xEF, 0xBB, 0xBF, 0x41]
     n = 0
     bad = []
-    for ln in range(0, 5):
+    # lengths 0-5: the detector is also handed whole inputs (slice path), so what a pattern does with bytes beyond the
+    # fourth matters (`[_, 0, 0, 0]` without `..` matches a 4-byte input only)
+    for ln in range(0, 6):
         for bs in itertools.product(classes, repeat=ln):
             n += 1
             a = _eval_rows(rows, default, bs)
@@ -325,7 +336,7 @@ def r07_2(ctx):
             if a != b:
                 bad.append((bs, a, b))
     ctx.ob("decision-table-equivalence", not bad, site(d),
-           f"{n} prefixes over byte classes {[hex(c) for c in classes]} x lengths 0-4 agree with the spec table" if not bad else
+           f"{n} prefixes over byte classes {[hex(c) for c in classes]} x lengths 0-5 agree with the spec table" if not bad else
            f"{len(bad)} of {n} prefixes differ, e.g. {' '.join('%02X' % x for x in bad[0][0])}: code says {bad[0][1]}, YAML 1.2.2 section 5.2 says {bad[0][2]}")
     # row-level report (helps triage)
     for r, enc in ref_rows:
@@ -521,7 +532,7 @@ def _nth(d, k):
     return d[k] - 1
 
 
-@rule("R07.4", 3, "a byte order mark is stripped once and only at the start of the stream", ["C07"])
+@rule("R07.4", 3, "a byte order mark is stripped once and only at the start of the stream", ["C07", "C01"])
 def r07_4(ctx):
     lib = ctx.lib
     sites = []
@@ -1251,6 +1262,19 @@ def r07_6(ctx):
             if (f.get("resolved") or f.get("def")) != d.id:
                 continue
             n += 1
+            if b.raw["def_kind"] == "Closure":
+                # the detector is consulted inside a closure (`.filter(|_| matches!(Encoding::detect(&b), ..))`): what it
+                # is given is a captured variable of the enclosing function
+                root = b
+                while root.raw["def_kind"] == "Closure" and root.raw.get("parent") in lib.by_id:
+                    root = lib.by_id[root.raw["parent"]]
+                csup = Super(lib, root, depth=2)
+                cn = [nn for nn, nb, tt in csup.calls() if tt is t]
+                if cn:
+                    ctr = strace(csup, cn[0], t["args"][0], extra=("std::ops::Deref::deref",))
+                    if any(s_[0] == "downcast" and s_[1] in _mem_variants(ctx.facts) for s_ in ctr.steps):
+                        ctx.ob(f"detect-input:{root.name}", True, site(b, bb), "whole input slice (captured by the closure that consults the detector)")
+                        continue
             for ok, det, sb, sbb in classify(b, bb, t["args"][0]):
                 ctx.ob(f"detect-input:{sb.name}", ok, site(sb, sbb), det)
     ctx.ob("detect-call-sites", n >= 2, "lib", f"{n} call site(s) of the encoding detector")
